@@ -71,6 +71,7 @@ type State struct {
 	sliceHeap map[string]Term
 	objHeap   map[string]Term
 	mapHeap   map[string]Term
+	chanHeap  map[string]Term // copy-on-write
 	next      Term
 	logs      map[string]*CallLog
 	ghost     map[string]Val
@@ -96,7 +97,7 @@ func NewState() *State {
 }
 
 func (s *State) Clone() *State {
-	n := &State{next: s.next, actions: s.actions, dead: s.dead, specIters: s.specIters[:len(s.specIters):len(s.specIters)], lastIter: s.lastIter, actionLog: s.actionLog[:len(s.actionLog):len(s.actionLog)], chunks: s.chunks}
+	n := &State{next: s.next, actions: s.actions, dead: s.dead, specIters: s.specIters[:len(s.specIters):len(s.specIters)], lastIter: s.lastIter, actionLog: s.actionLog[:len(s.actionLog):len(s.actionLog)], chunks: s.chunks, chanHeap: s.chanHeap}
 	n.pc = append([]Term(nil), s.pc...)
 	n.path = append([]string(nil), s.path...)
 	n.cells = make(map[int]Val, len(s.cells))
